@@ -11,20 +11,29 @@ package main
 //   b. DCR create / read / update / delete histories on their own provider, with storage and
 //      HandleDynamicClient failures: hashes never, a secret / registration token only in the one
 //      response that creates or rotates it, nothing of another client;
-//   c. GET /jwks for key sets of every asymmetric type (RSA, EC P-256/384/521), given with and
-//      without private parts, sig and enc use, plus a symmetric key: public members only;
-//   d. every token response of every grant (code, refresh, implicit, client_credentials,
-//      jwt-bearer) for pairwise clients configured for JWT access tokens: opaque, except
-//      client_credentials.
+//   c. GET /jwks and discovery for key sets of every asymmetric type (RSA, EC P-256/384/521), given
+//      with and without private parts, sig and enc use, plus a symmetric key, CROSSED with every
+//      provider option that changes how keys are handled - WithSignFunc, WithDecryptFunc, both,
+//      neither; JAR / ID-token+userinfo / JARM encryption on and off - and with the path prefix;
+//      in each cell also a token request (signing path, also when signing must fail) and, where
+//      JAR encryption is on, an encrypted request object (decryption path): public members only,
+//      and the served set is compared with Model/ArtifactsX.v public_jwks_x (CMeta cases);
+//   d. every way a client comes to have a pairwise subject (subject_type=pairwise; subject_type
+//      absent under a provider whose DEFAULT subject type is pairwise; either with a sector
+//      identifier; with and without a pairwise function) and every way it does not, x every grant
+//      (code, refresh, implicit and hybrid, client_credentials, jwt-bearer; CIBA through the
+//      mixed histories of a., whose worlds draw the same subject configurations) with token
+//      options asking for JWT: opaque, except client_credentials.  The same responses are
+//      compared with Model/Artifacts.v make / token_options (CAuthz / CToken cases).
 // Findings are "<endpoint>:<atom class>".  The mixed histories are also written as model cases and
 // the theorem's monitor (Corr/C09.v mon_C09) is evaluated on the implementation's trace.
 
 import (
 	"bytes"
 	"context"
+	"crypto"
 	"crypto/ecdsa"
-	"crypto/elliptic"
-	"crypto/rand"
+	"crypto/rsa"
 	"encoding/base64"
 	"encoding/json"
 	"errors"
@@ -177,7 +186,7 @@ func (s *c09Scan) scanGeneric(endpoint, text string, presented string, requester
 }
 
 // pairwise clients never receive a JWT access token, except from client_credentials
-func (s *c09Scan) checkPairwise(endpoint, text string, pairwise bool, grant string, replay map[string]any) {
+func (s *c09Scan) checkPairwise(endpoint, text string, pairwise bool, how string, grant string, replay map[string]any) {
 	var ats []string
 	for _, re := range []*regexp.Regexp{credFields, navFields, formFields} {
 		for _, m := range re.FindAllStringSubmatch(text, -1) {
@@ -191,10 +200,12 @@ func (s *c09Scan) checkPairwise(endpoint, text string, pairwise bool, grant stri
 		isJWT := strings.Count(at, ".") == 2
 		if pairwise {
 			s.stats["access_tokens_seen(pairwise client)"]++
+			s.stats["matrix/pairwise | "+how+" | grant="+grant]++
 		}
 		if pairwise && isJWT && grant != "client_credentials" {
 			sub := jwtClaim(at, "sub")
-			s.fail(endpoint, "pairwise-jwt", fmt.Sprintf("a client with pairwise subject type received a JWT access token (grant %q) whose sub is the raw subject %q", grant, sub), replay)
+			s.stats["FAILED pairwise-jwt | "+how+" | grant="+grant]++
+			s.fail(endpoint, "pairwise-jwt", fmt.Sprintf("a client whose subject is pairwise (%s) received a JWT access token (grant %q) whose sub is the raw subject %q", how, grant, sub), replay)
 		}
 	}
 }
@@ -239,11 +250,19 @@ func (s *c09Scan) worldHook(w *World, method, target string, form url.Values, hd
 		}
 	}
 	if ep == "token" || ep == "authorize" {
-		pw := false
+		pw, how := false, ""
 		if cs := w.clientSpec(clientNum(requester)); cs != nil {
 			pw = cs.Pairwise
+			how = "subject_type=pairwise"
+			if cs.SubTypeAbsent {
+				how = "subject_type absent, default subject type pairwise"
+			}
 		}
-		s.checkPairwise(ep, text, pw, form.Get("grant_type"), replay)
+		grant := form.Get("grant_type")
+		if ep == "authorize" {
+			grant = "implicit"
+		}
+		s.checkPairwise(ep, text, pw, how, grant, replay)
 	}
 	// an internal failure must come out as internal_error without the text (checked by the planted string)
 	if strings.Contains(text, "injected storage failure") {
@@ -270,7 +289,7 @@ func c09Mixed(ctx *RunCtx, s *c09Scan) {
 	n := ctx.N(120, 2500)
 	saved := errInjected
 	errInjected = errors.New("injected storage failure: " + plantedFailureSecret)
-	defer func() { errInjected = saved; serveHook = nil }()
+	defer func() { errInjected = saved; serveHook = nil; extraProviderOpts = nil }()
 	serveHook = s.worldHook
 	for i := 0; i < n; i++ {
 		fl := []string{"copy", "alias"}[i%2]
@@ -279,14 +298,16 @@ func c09Mixed(ctx *RunCtx, s *c09Scan) {
 			want["dynamic"] = true
 		}
 		spec := randomSpec(ctx.R, fl, want)
+		variant := c09SubjectVariant(ctx, &spec, i)
 		g, err := NewSysGen(ctx.R, spec)
 		if err != nil {
 			panic(err)
 		}
+		s.stats["matrix/mixed histories | "+variant]++
 		s.plantWorld(g.W)
 		g.DevRate = 30
 		g.Run(30)
-		ctx.AddCase(g.Case(fmt.Sprintf("c09#%d/%s", i, fl)))
+		ctx.AddCase(g.Case(fmt.Sprintf("c09#%d/%s [%s]", i, fl, variant)))
 		ctx.AddStats(g.stats)
 		// fault round: re-execute operations of the history with the k-th storage call failing with a
 		// plain error whose text embeds a secret (not part of the model case)
@@ -305,6 +326,54 @@ func c09Mixed(ctx *RunCtx, s *c09Scan) {
 			}()
 		}
 	}
+}
+
+// c09SubjectVariant rewrites the clients of a world so that every way of being (or not being) pairwise
+// occurs: the model sees only the EFFECTIVE subject type (ClientSpec.Pairwise -> c_pairwise), the real
+// registration says it in one of the ways the code distinguishes.
+//   0: default public (the generator's world): subject_type=pairwise spelled out on some clients
+//   1: default PAIRWISE: clients without subject_type are pairwise; some spell out public, some pairwise
+//   2: default public: more clients pairwise and configured for JWT; the others spell out public
+func c09SubjectVariant(ctx *RunCtx, spec *WorldSpec, i int) string {
+	extraProviderOpts = nil
+	cls := spec.Static
+	if len(spec.Dyn) > 0 {
+		cls = spec.Dyn
+	}
+	switch i % 3 {
+	case 1:
+		extraProviderOpts = func(*World) []provider.ProviderOption {
+			return []provider.ProviderOption{provider.WithSubIdentifierTypes(goidc.SubIdentifierPairwise, goidc.SubIdentifierPublic)}
+		}
+		for j := range cls {
+			c := &cls[j]
+			switch {
+			case c.Pairwise && ctx.R.Intn(2) == 0: // stays spelled out
+			case ctx.R.Intn(4) == 0:
+				c.Pairwise, c.SubTypePublic = false, true
+			default:
+				c.Pairwise, c.SubTypeAbsent = true, true
+			}
+			if ctx.R.Intn(2) == 0 {
+				c.JWT = true
+			}
+		}
+		return "default subject type pairwise"
+	case 2:
+		for j := range cls {
+			c := &cls[j]
+			if ctx.R.Intn(3) == 0 {
+				c.Pairwise = true
+			} else if !c.Pairwise {
+				c.SubTypePublic = ctx.R.Intn(2) == 0
+			}
+			if ctx.R.Intn(2) == 0 {
+				c.JWT = true
+			}
+		}
+		return "default subject type public, more pairwise and JWT clients"
+	}
+	return "default subject type public"
 }
 
 // ---- b. DCR ----
@@ -544,67 +613,210 @@ func c09DcrHistories(ctx *RunCtx, s *c09Scan) {
 	}
 }
 
-// ---- c. /jwks for every key type ----
-func c09JWKS(ctx *RunCtx, s *c09Scan) {
+// ---- c. /jwks for every key type x every way of handling keys ----
+type c09Key struct {
+	jwk  goidc.JSONWebKey
+	priv any    // the private material to look for in responses (also when the set holds the public half only)
+	coq  string // the key as Model/Artifacts.v jwk
+}
+
+func c09KeyOf(kid, alg, use string, key any, privOf any, pair int) c09Key {
+	kty, hasPriv := "KtyOct", true
+	switch k := key.(type) {
+	case *rsa.PrivateKey:
+		kty = "KtyRSA"
+	case *rsa.PublicKey:
+		kty, hasPriv = "KtyRSA", false
+	case *ecdsa.PrivateKey:
+		kty = fmt.Sprintf("(KtyEC %d)", k.Curve.Params().BitSize)
+	case *ecdsa.PublicKey:
+		kty, hasPriv = fmt.Sprintf("(KtyEC %d)", k.Curve.Params().BitSize), false
+	}
+	calg := fmt.Sprintf("(AEnc %d)", c08KalgIx(alg)-100)
+	if use == "sig" {
+		calg = "(ASig " + alg + ")"
+	}
+	cuse := map[string]string{"sig": "UseSig", "enc": "UseEnc"}[use]
+	return c09Key{jwk: goidc.JSONWebKey{Key: key, KeyID: kid, Algorithm: alg, Use: use}, priv: privOf,
+		coq: fmt.Sprintf("mkJwk %s %s %s %s %d %s", cS(kid), calg, cuse, kty, pair, cB(hasPriv))}
+}
+
+type c09KeySet struct {
+	name string
+	keys []c09Key
+}
+
+func c09KeySets() []c09KeySet {
 	k := c08Keys()
-	ec := func(c elliptic.Curve) *ecdsa.PrivateKey { x, _ := ecdsa.GenerateKey(c, rand.Reader); return x }
-	type keyset struct {
-		name string
-		keys []goidc.JSONWebKey
-		priv []any
+	sym := []byte("planted-symmetric-key-0123456789abcdef")
+	return []c09KeySet{
+		{"RSA sig keys with private parts", []c09Key{c09KeyOf("r1", "RS256", "sig", k.rsa, k.rsa, pairRSA), c09KeyOf("r2", "PS512", "sig", k.rsa, k.rsa, pairRSA)}},
+		{"RSA enc key with private parts", []c09Key{c09KeyOf("s", "ES256", "sig", k.ec256, k.ec256, pairEC256), c09KeyOf("renc", "RSA-OAEP-256", "enc", k.rsaEnc, k.rsaEnc, pairSrvEnc)}},
+		{"EC P-256/384/521 sig keys with private parts", []c09Key{c09KeyOf("e1", "ES256", "sig", k.ec256, k.ec256, pairEC256), c09KeyOf("e2", "ES384", "sig", k.ec384, k.ec384, pairEC384), c09KeyOf("e3", "ES512", "sig", k.ec521, k.ec521, pairEC521)}},
+		{"EC enc key with private parts", []c09Key{c09KeyOf("s", "ES256", "sig", k.ec256, k.ec256, pairEC256), c09KeyOf("eenc", "ECDH-ES", "enc", k.ecEnc, k.ecEnc, pairSrvECEnc)}},
+		{"keys given without private parts", []c09Key{c09KeyOf("r1", "RS256", "sig", &k.rsa.PublicKey, k.rsa, pairRSA), c09KeyOf("e2", "ES384", "sig", &k.ec384.PublicKey, k.ec384, pairEC384), c09KeyOf("e1", "ES256", "sig", k.ec256, k.ec256, pairEC256)}},
+		{"a symmetric key beside asymmetric ones", []c09Key{c09KeyOf("e1", "ES256", "sig", k.ec256, k.ec256, pairEC256), c09KeyOf("h1", "HS256", "sig", sym, sym, 7)}},
+		{"external-signer layout: public sig keys, private RSA-OAEP and ECDH-ES enc keys", []c09Key{c09KeyOf("r1", "RS256", "sig", &k.rsa.PublicKey, k.rsa, pairRSA), c09KeyOf("e1", "ES256", "sig", &k.ec256.PublicKey, k.ec256, pairEC256),
+			c09KeyOf("renc", "RSA-OAEP-256", "enc", k.rsaEnc, k.rsaEnc, pairSrvEnc), c09KeyOf("eenc", "ECDH-ES", "enc", k.ecEnc, k.ecEnc, pairSrvECEnc)}},
+		{"private sig and enc keys of every type", []c09Key{c09KeyOf("r1", "PS256", "sig", k.rsa, k.rsa, pairRSA), c09KeyOf("e1", "ES256", "sig", k.ec256, k.ec256, pairEC256), c09KeyOf("e3", "ES512", "sig", k.ec521, k.ec521, pairEC521),
+			c09KeyOf("renc", "RSA-OAEP-256", "enc", k.rsaEnc, k.rsaEnc, pairSrvEnc), c09KeyOf("eenc", "ECDH-ES", "enc", k.ecEnc, k.ecEnc, pairSrvECEnc)}},
 	}
-	e256, e384, e521 := k.ec256, k.ec384, k.ec521
-	encEC := ec(elliptic.P384())
-	sets := []keyset{
-		{"RSA sig keys with private parts", []goidc.JSONWebKey{{Key: k.rsa, KeyID: "r1", Algorithm: "RS256", Use: "sig"}, {Key: k.rsa, KeyID: "r2", Algorithm: "PS512", Use: "sig"}}, []any{k.rsa}},
-		{"RSA enc key with private parts", []goidc.JSONWebKey{{Key: e256, KeyID: "s", Algorithm: "ES256", Use: "sig"}, {Key: k.rsaEnc, KeyID: "renc", Algorithm: "RSA-OAEP-256", Use: "enc"}}, []any{k.rsaEnc, e256}},
-		{"EC P-256/384/521 sig keys with private parts", []goidc.JSONWebKey{{Key: e256, KeyID: "e1", Algorithm: "ES256", Use: "sig"}, {Key: e384, KeyID: "e2", Algorithm: "ES384", Use: "sig"}, {Key: e521, KeyID: "e3", Algorithm: "ES512", Use: "sig"}}, []any{e256, e384, e521}},
-		{"EC enc key with private parts", []goidc.JSONWebKey{{Key: e256, KeyID: "s", Algorithm: "ES256", Use: "sig"}, {Key: encEC, KeyID: "eenc", Algorithm: "ECDH-ES", Use: "enc"}}, []any{encEC, e256}},
-		{"keys given without private parts", []goidc.JSONWebKey{{Key: &k.rsa.PublicKey, KeyID: "r1", Algorithm: "RS256", Use: "sig"}, {Key: &e384.PublicKey, KeyID: "e2", Algorithm: "ES384", Use: "sig"}, {Key: e256, KeyID: "e1", Algorithm: "ES256", Use: "sig"}}, []any{k.rsa, e384, e256}},
-		{"a symmetric key beside asymmetric ones", []goidc.JSONWebKey{{Key: e256, KeyID: "e1", Algorithm: "ES256", Use: "sig"}, {Key: []byte("planted-symmetric-key-0123456789abcdef"), KeyID: "h1", Algorithm: "HS256", Use: "sig"}}, []any{e256, []byte("planted-symmetric-key-0123456789abcdef")}},
-	}
+}
+
+var c09KeyHandlings = []string{"keys from the set", "WithSignFunc", "WithDecryptFunc", "WithSignFunc+WithDecryptFunc"}
+var c09EncFeatures = []string{"no encryption", "JAR encryption", "ID token + userinfo encryption", "JARM encryption", "JAR + ID token + userinfo + JARM encryption"}
+
+// c09JWKS returns the CMeta model cases (term, note) of the cells whose /jwks answered 200
+func c09JWKS(ctx *RunCtx, s *c09Scan) (cases []string, notes []map[string]any) {
+	k := c08Keys()
 	allowed := map[string]bool{"kty": true, "kid": true, "use": true, "alg": true, "n": true, "e": true, "crv": true, "x": true, "y": true, "x5c": true, "x5t": true, "x5t#S256": true, "x5u": true, "key_ops": true}
-	for _, ks := range sets {
+	client := &goidc.Client{ID: c08Client, HashedSecret: bcryptOf(c08Secret)}
+	client.TokenAuthnMethod = goidc.ClientAuthnSecretPost
+	client.GrantTypes = []goidc.GrantType{goidc.GrantClientCredentials, goidc.GrantAuthorizationCode}
+	client.ResponseTypes = []goidc.ResponseType{"code"}
+	client.RedirectURIs = []string{c08Redirect}
+	client.ScopeIDs = "openid email"
+	client.PublicJWKS = k.clientJWKS()
+	cell := 0
+	for _, ks := range c09KeySets() {
+		var set goidc.JSONWebKeySet
+		var coqKeys []string
+		privByAlg := map[string]any{}
+		privByKid := map[string]any{}
+		var encKey *goidc.JSONWebKey
+		for i := range ks.keys {
+			set.Keys = append(set.Keys, ks.keys[i].jwk)
+			coqKeys = append(coqKeys, ks.keys[i].coq)
+			if ks.keys[i].jwk.Use == "sig" {
+				privByAlg[ks.keys[i].jwk.Algorithm] = ks.keys[i].priv
+			} else {
+				privByKid[ks.keys[i].jwk.KeyID] = ks.keys[i].priv
+				if encKey == nil {
+					encKey = &ks.keys[i].jwk
+				}
+			}
+		}
+		sigAlg := goidc.SignatureAlgorithm(ks.keys[0].jwk.Algorithm)
 		for _, prefix := range []string{"", "/auth"} {
-			set := goidc.JSONWebKeySet{Keys: ks.keys}
-			opts := []provider.ProviderOption{provider.WithIDTokenSignatureAlgs(goidc.SignatureAlgorithm(ks.keys[0].Algorithm))}
-			if prefix != "" {
-				opts = append(opts, provider.WithPathPrefix(prefix))
-			}
-			p, err := provider.New(goidc.ProfileOpenID, issuer, func(context.Context) (goidc.JSONWebKeySet, error) { return set, nil }, opts...)
-			if err != nil {
-				panic(err)
-			}
-			for _, path := range []string{"/jwks", "/.well-known/openid-configuration"} {
-				rec := httptest.NewRecorder()
-				var pan any
-				func() {
-					defer func() { pan = recover() }()
-					p.Handler().ServeHTTP(rec, httptest.NewRequest("GET", prefix+path, nil))
-				}()
-				text := responseText(rec)
-				s.stats["responses"]++
-				s.stats["responses:jwks"]++
-				replay := map[string]any{"key_set": ks.name, "request": "GET " + prefix + path, "response": truncate(text, 3000)}
-				ep := "jwks"
-				if path != "/jwks" {
-					ep = "well-known"
-				}
-				for _, pk := range ks.priv {
-					for name, v := range privateMembers(pk) {
-						if strings.Contains(text, v) {
-							s.fail(ep, "private-jwk-member-"+name, fmt.Sprintf("key set %q: the private member %q of a server key is published", ks.name, name), replay)
+			for hi, handling := range c09KeyHandlings {
+				for fi, feature := range c09EncFeatures {
+					cell++
+					opts := []provider.ProviderOption{
+						provider.WithIDTokenSignatureAlgs(sigAlg), provider.WithUserInfoSignatureAlgs(sigAlg),
+						provider.WithScopes(goidc.ScopeOpenID, goidc.NewScope("email")),
+						provider.WithClientCredentialsGrant(), provider.WithAuthorizationCodeGrant(),
+						provider.WithTokenAuthnMethods(goidc.ClientAuthnSecretPost),
+						provider.WithStaticClient(client),
+						provider.WithTokenOptions(func(goidc.GrantInfo, *goidc.Client) goidc.TokenOptions { return goidc.NewJWTTokenOptions(sigAlg, 300) }),
+						provider.WithPolicy(goidc.NewPolicy("main",
+							func(*http.Request, *goidc.Client, *goidc.AuthnSession) bool { return true },
+							func(http.ResponseWriter, *http.Request, *goidc.AuthnSession) (goidc.AuthnStatus, error) {
+								return goidc.StatusFailure, errors.New("no user")
+							})),
+					}
+					if prefix != "" {
+						opts = append(opts, provider.WithPathPrefix(prefix))
+					}
+					signer, decrypter := "None", false
+					if hi == 1 || hi == 3 {
+						opts = append(opts, provider.WithSignFunc(func(_ context.Context, a goidc.SignatureAlgorithm) (string, crypto.Signer, error) {
+							for _, key := range ks.keys {
+								if key.jwk.Use == "sig" && key.jwk.Algorithm == string(a) {
+									if sg, ok := key.priv.(crypto.Signer); ok {
+										return key.jwk.KeyID, sg, nil
+									}
+								}
+							}
+							return "", nil, errors.New("no signer for " + string(a) + ": " + plantedFailureSecret)
+						}))
+						var parts []string
+						for _, key := range ks.keys {
+							if _, ok := key.priv.(crypto.Signer); ok && key.jwk.Use == "sig" {
+								parts = append(parts, fmt.Sprintf("(%s, (%s, %d))", key.jwk.Algorithm, cS(key.jwk.KeyID), k.pairOf(c08PublicOf(key.priv))))
+							}
 						}
+						signer = "(Some [" + strings.Join(parts, "; ") + "])"
 					}
-					if b, ok := pk.([]byte); ok && (strings.Contains(text, string(b)) || strings.Contains(text, base64.RawURLEncoding.EncodeToString(b))) {
-						s.fail(ep, "private-jwk-member-k", "the symmetric key is published", replay)
+					if hi == 2 || hi == 3 {
+						decrypter = true
+						opts = append(opts, provider.WithDecryptFunc(func(_ context.Context, kid string, _ goidc.KeyEncryptionAlgorithm) (crypto.Decrypter, error) {
+							if d, ok := privByKid[kid].(crypto.Decrypter); ok {
+								return d, nil
+							}
+							return nil, errors.New("no decrypter for " + kid + ": " + plantedFailureSecret)
+						}))
 					}
-				}
-				if path == "/jwks" && pan == nil {
+					jarEnc := fi == 1 || fi == 4
+					if jarEnc {
+						opts = append(opts, provider.WithJAR(goidc.ES256, goidc.RS256), provider.WithJAREncryption(goidc.RSA_OAEP_256, "ECDH-ES"))
+					}
+					if fi == 2 || fi == 4 {
+						opts = append(opts, provider.WithIDTokenEncryption(goidc.RSA_OAEP_256, "ECDH-ES"), provider.WithUserInfoEncryption(goidc.RSA_OAEP_256, "ECDH-ES"))
+					}
+					if fi == 3 || fi == 4 {
+						opts = append(opts, provider.WithJARM(sigAlg), provider.WithJARMEncryption(goidc.RSA_OAEP_256, "ECDH-ES"))
+					}
+					p, err := provider.New(goidc.ProfileOpenID, issuer, func(context.Context) (goidc.JSONWebKeySet, error) { return set, nil }, opts...)
+					if err != nil {
+						panic(fmt.Sprintf("c09 jwks matrix: provider.New (%s, %s, %s): %v", ks.name, handling, feature, err))
+					}
+					h := p.Handler()
+					cfgText := fmt.Sprintf("key set %q, %s, %s, prefix %q", ks.name, handling, feature, prefix)
+					s.history = []string{"jwks matrix: " + cfgText}
+					s.stats["matrix/jwks | "+ks.name+" | "+handling]++
+					s.stats["matrix/jwks | "+handling+" | "+feature+fmt.Sprintf(" | prefix=%q", prefix)]++
+					do := func(method, target string, form url.Values) *httptest.ResponseRecorder {
+						rec := httptest.NewRecorder()
+						var body io.Reader
+						if form != nil {
+							body = strings.NewReader(form.Encode())
+						}
+						req := httptest.NewRequest(method, target, body)
+						if form != nil {
+							req.Header.Set("Content-Type", "application/x-www-form-urlencoded")
+						}
+						func() {
+							defer func() { _ = recover() }()
+							h.ServeHTTP(rec, req)
+						}()
+						text := responseText(rec)
+						line := method + " " + target + " " + form.Encode()
+						s.history = append(s.history, truncate(line, 300))
+						s.stats["responses"]++
+						ep := endpointOf(target)
+						s.stats["responses:"+ep]++
+						s.stats[fmt.Sprintf("jwks-matrix:%s:%d", ep, rec.Code)]++
+						if ep == "authorize" && strings.Contains(rec.Body.String(), "could not fetch the client public key") {
+							s.stats["jwks-matrix:request object decrypted"]++
+						}
+						replay := map[string]any{"key_set": ks.name, "key_handling": handling, "encryption": feature, "path_prefix": prefix, "request": truncate(line, 400), "response": truncate(text, 3000)}
+						for _, key := range ks.keys {
+							for name, v := range privateMembers(key.priv) {
+								if strings.Contains(text, v) {
+									s.fail(ep, "private-jwk-member-"+name, fmt.Sprintf("%s %s (%s): the response carries the private member %q of the server key %q (use %s, alg %s)",
+										method, strings.SplitN(target, "?", 2)[0], cfgText, name, key.jwk.KeyID, key.jwk.Use, key.jwk.Algorithm), replay)
+								}
+							}
+							if b, ok := key.priv.([]byte); ok && (strings.Contains(text, string(b)) || strings.Contains(text, base64.RawURLEncoding.EncodeToString(b))) {
+								s.fail(ep, "private-jwk-member-k", fmt.Sprintf("%s %s (%s): the symmetric key is published", method, target, cfgText), replay)
+							}
+						}
+						if strings.Contains(text, plantedFailureSecret) {
+							s.fail(ep, "error-text", fmt.Sprintf("%s %s (%s): the text of an embedder callback failure is echoed", method, strings.SplitN(target, "?", 2)[0], cfgText), replay)
+						}
+						if strings.Contains(text, "$2a$") {
+							s.fail(ep, "secret-hash", "the response contains a bcrypt hash", replay)
+						}
+						return rec
+					}
+					// the key set and the metadata
+					rec := do("GET", prefix+"/jwks", nil)
+					do("GET", prefix+"/.well-known/openid-configuration", nil)
 					var doc struct {
 						Keys []map[string]any `json:"keys"`
 					}
-					if json.Unmarshal(rec.Body.Bytes(), &doc) == nil {
+					if rec.Code == 200 && json.Unmarshal(rec.Body.Bytes(), &doc) == nil {
+						replay := map[string]any{"key_set": ks.name, "key_handling": handling, "encryption": feature, "request": "GET " + prefix + "/jwks", "response": truncate(rec.Body.String(), 3000)}
 						for _, m := range doc.Keys {
 							for name := range m {
 								if !allowed[name] {
@@ -613,8 +825,46 @@ func c09JWKS(ctx *RunCtx, s *c09Scan) {
 									case "d", "p", "q", "dp", "dq", "qi", "k", "oth":
 										cls = "private-jwk-member-" + name
 									}
-									s.fail(ep, cls, fmt.Sprintf("key set %q: key %v publishes the member %q", ks.name, m["kid"], name), replay)
+									s.fail("jwks", cls, fmt.Sprintf("GET %s/jwks (%s): key %v publishes the member %q", prefix, cfgText, m["kid"], name), replay)
 								}
+							}
+						}
+						// the served set against the model (a set with a symmetric key is not served at all: go-jose refuses
+						// to marshal the zero JWK that Public() yields, the body is the internal_error object - with status 200)
+						if parsed, err := parseJWKS(rec.Body.Bytes()); err == nil && len(parsed) > 0 {
+							var mo atoms
+							mo.S(issuer)
+							mo.S(issuer + prefix + "/jwks")
+							for _, pk := range parsed {
+								priv := 0
+								for _, m := range pk.Members {
+									switch m {
+									case "d", "p", "q", "dp", "dq", "qi", "k", "oth":
+										priv = 1
+									}
+								}
+								mo.S(pk.Kid)
+								mo.N(c08KalgIx(pk.Alg))
+								mo.N(k.pairOf(pk.Pub))
+								mo.N(priv)
+							}
+							acfg := fmt.Sprintf("(mkACfg %s [%s] %s false 600%%Z false %s false false false %s 600%%Z false false false true)",
+								cS(issuer), strings.Join(coqKeys, "; "), sigAlg, sigAlg, sigAlg)
+							cases = append(cases, fmt.Sprintf("CMeta %s (mkKeyHandling %s %s %s) %s", acfg, cS(prefix), signer, cB(decrypter), mo.coq()))
+							notes = append(notes, map[string]any{"Note": "jwks matrix: " + cfgText, "Spec": map[string]any{"key_set": ks.name, "key_handling": handling, "encryption": feature, "path_prefix": prefix}, "Obs": []string(mo)})
+						}
+					}
+					// the signing path (a JWT access token; fails, and must fail silently, when nothing can sign)
+					do("POST", prefix+"/token", url.Values{"grant_type": {"client_credentials"}, "scope": {"email"}, "client_id": {c08Client}, "client_secret": {c08Secret}})
+					// the decryption path: a request object encrypted to the server's enc key (its content is not a valid request)
+					if jarEnc && encKey != nil {
+						if enc, err := jose.NewEncrypter(jose.A128CBC_HS256, jose.Recipient{Algorithm: jose.KeyAlgorithm(encKey.Algorithm), Key: c08PublicOf(encKey.Key), KeyID: encKey.KeyID},
+							(&jose.EncrypterOptions{}).WithContentType("jwt")); err == nil {
+							if obj, err := enc.Encrypt([]byte("eyJhbGciOiJFUzI1NiJ9.e30.c2ln")); err == nil {
+								jwe, _ := obj.CompactSerialize()
+								q := url.Values{"client_id": {c08Client}, "request": {jwe}, "response_type": {"code"}, "redirect_uri": {c08Redirect}, "scope": {"openid"}}
+								do("GET", prefix+"/authorize?"+q.Encode(), nil)
+								s.stats["matrix/jwks | encrypted request object | "+handling]++
 							}
 						}
 					}
@@ -622,57 +872,70 @@ func c09JWKS(ctx *RunCtx, s *c09Scan) {
 			}
 		}
 	}
+	s.stats["jwks_matrix_cells"] = cell
+	return cases, notes
 }
 
-// ---- d. pairwise clients and token formats, every grant ----
-func c09Pairwise(ctx *RunCtx, s *c09Scan) {
-	for i, alg := range []string{"ES256", "RS256", "PS384"} {
-		for _, pairwise := range []bool{true, false} {
-			cf := c08Cfg{SrvAlg: alg, IdtLifetime: 600, TokLifetime: 300, JARM: true, Pairwise: pairwise, JWTTokens: true,
-				Sub: fmt.Sprintf("raw-subject-%d", ctx.R.Intn(1000)), Scopes: "openid email", State: "st", Nonce: "n", RespType: "code"}
-			h, err := cf.provider()
-			if err != nil {
-				panic(err)
-			}
-			s.history = []string{fmt.Sprintf("pairwise matrix %d: alg=%s pairwise=%v, token options: JWT", i, alg, pairwise)}
-			post := func(form url.Values) map[string]any {
-				form.Set("client_id", c08Client)
-				form.Set("client_secret", c08Secret)
-				rec := c08Serve(h, "POST", "/token", form, nil)
-				text := responseText(rec)
-				line := "POST /token " + form.Encode()
-				s.history = append(s.history, line)
-				s.stats["responses"]++
-				s.stats["responses:token"]++
-				s.checkPairwise("token", text, pairwise, form.Get("grant_type"), map[string]any{"request": line, "response": truncate(text, 1500), "client_subject_type_pairwise": pairwise})
-				var m map[string]any
-				_ = json.Unmarshal(rec.Body.Bytes(), &m)
-				if rec.Code != 200 {
-					panic("c09 pairwise matrix: " + line + " => " + text)
-				}
-				return m
-			}
-			for _, rt := range []string{"code", "token", "id_token token", "code token", "code id_token token"} {
-				q := url.Values{"client_id": {c08Client}, "redirect_uri": {c08Redirect}, "response_type": {rt}, "scope": {cf.Scopes}, "state": {"st"}, "nonce": {"n"}}
-				rec := c08Serve(h, "GET", "/authorize?"+q.Encode(), nil, nil)
-				text := responseText(rec)
-				line := "GET /authorize?" + q.Encode()
-				s.history = append(s.history, line)
-				s.stats["responses"]++
-				s.checkPairwise("authorize", text, pairwise, "implicit", map[string]any{"request": line, "response": truncate(text, 1500)})
-				vals, _ := c08NavParams(rec)
-				if code := vals.Get("code"); code != "" {
-					m := post(url.Values{"grant_type": {"authorization_code"}, "code": {code}, "redirect_uri": {c08Redirect}})
-					if rtok, _ := m["refresh_token"].(string); rtok != "" {
-						post(url.Values{"grant_type": {"refresh_token"}, "refresh_token": {rtok}})
-					}
-				}
-			}
-			post(url.Values{"grant_type": {"client_credentials"}, "scope": {"email"}})
-			post(url.Values{"grant_type": {"urn:ietf:params:oauth:grant-type:jwt-bearer"}, "assertion": {"ok:" + cf.Sub}, "scope": {"openid email"}})
-			post(url.Values{"grant_type": {"urn:ietf:params:oauth:grant-type:jwt-bearer"}, "assertion": {"ok:" + cf.Sub}, "scope": {"email"}})
+// ---- d. every origin of a pairwise subject x every grant ----
+func c09Pairwise(ctx *RunCtx, s *c09Scan) *c08Run {
+	r := newC08Run(ctx)
+	var cur c08Cfg
+	k := c08Keys()
+	var plant []planted
+	for _, key := range []any{k.rsa, k.rsaEnc, k.ec256, k.ec384, k.ec521} {
+		for name, v := range privateMembers(key) {
+			plant = append(plant, planted{class: "private-jwk-member-" + name, value: v})
 		}
 	}
+	c08ServeHook = func(method, target string, form url.Values, hdr http.Header, rec *httptest.ResponseRecorder) {
+		text := responseText(rec)
+		line := method + " " + target + " " + form.Encode()
+		s.history = append(s.history, truncate(line, 300))
+		ep := endpointOf(target)
+		replay := map[string]any{"request": truncate(line, 400), "response": truncate(text, 1500), "subject_configuration": cur.subjectConfig(),
+			"token_options": "JWT", "configuration": cur}
+		s.static = plant
+		s.scanGeneric(ep, text, target+" "+form.Encode()+" "+fmt.Sprint(hdr), c08Client, replay)
+		if ep == "token" || ep == "authorize" {
+			grant := form.Get("grant_type")
+			if ep == "authorize" {
+				grant = "implicit"
+			}
+			s.checkPairwise(ep, text, cur.pairwise(), cur.subjectConfig(), grant, replay)
+			if !cur.pairwise() {
+				s.stats["matrix/not pairwise | "+cur.subjectConfig()+" | grant="+grant]++
+			}
+		}
+	}
+	defer func() { c08ServeHook = nil }()
+	n := 0
+	for _, sc := range c08Subjects {
+		for _, sector := range []bool{false, true} {
+			for _, noFn := range []bool{false, true} {
+				if noFn && sector {
+					continue
+				}
+				n++
+				alg := c08SigAlgs[(n+ctx.R.Intn(7))%len(c08SigAlgs)]
+				cur = c08Cfg{SrvAlg: alg, IdtLifetime: 600, TokLifetime: 300, JARM: true, JWTTokens: true,
+					SubType: sc.SubType, DefaultPairwise: sc.DefaultPairwise, Sector: sector, NoPairwiseFn: noFn,
+					Prefix: c08Prefixes[n%len(c08Prefixes)], SignFunc: n%4 == 0,
+					Sub: fmt.Sprintf("raw-subject-%d", ctx.R.Intn(1000)), Scopes: "openid email", State: "st", Nonce: "n"}
+				s.cred = map[string]string{}
+				s.history = []string{fmt.Sprintf("pairwise matrix %d: %s, token options: JWT (%s), prefix %q", n, cur.subjectConfig(), alg, cur.Prefix)}
+				for _, rt := range []string{"code", "token", "id_token token", "code token", "code id_token token"} {
+					cf := cur
+					cf.RespType = rt
+					r.flow(cf) // authorize (implicit / hybrid), code, refresh, userinfo
+				}
+				r.grants(cur) // client_credentials, jwt-bearer
+				cf := cur
+				cf.Scopes = "email"
+				r.grants(cf) // jwt-bearer without openid
+			}
+		}
+	}
+	return r
 }
 
 const c09CaseHeader = `From Verif Require Import Base Scope Types Prog Pop Token Authorize System Config Run Monitors.
@@ -685,8 +948,8 @@ func init() {
 		s := newScan()
 		c09Mixed(ctx, s)
 		c09DcrHistories(ctx, s)
-		c09JWKS(ctx, s)
-		c09Pairwise(ctx, s)
+		metaCases, metaNotes := c09JWKS(ctx, s)
+		pw := c09Pairwise(ctx, s)
 		// the mixed histories as model cases: correspondence + the theorem's monitor on the implementation's trace
 		ctx.writeSysCases("mon_C09", true)
 		for _, f := range ctx.Meta.Files {
@@ -695,6 +958,17 @@ func init() {
 			_ = os.WriteFile(p, []byte(strings.Replace(string(b), caseHeader, c09CaseHeader, 1)), 0o644)
 		}
 		ctx.writeCasesJSON()
+		// the two matrices as model cases of the artifact model (Corr/C08.v check_c08): the key set served in every
+		// cell against public_jwks_x, every response of the pairwise matrix against make / token_options
+		c09ArtifactCases(ctx, append(metaCases, pw.cases...), append(metaNotes, pw.notes...))
+		for sig, fd := range pw.findings {
+			// of the artifact oracles only those that concern disclosure: subjects and published key members
+			if strings.HasSuffix(sig, ":sub") || strings.HasPrefix(sig, "jwks:") {
+				fd.Property, fd.Signature = "C09", "pairwise-matrix/"+sig
+				s.findings[fd.Signature] = fd
+			}
+		}
+
 		var sigs []string
 		for sig := range s.findings {
 			sigs = append(sigs, sig)
@@ -706,7 +980,47 @@ func init() {
 		for k, v := range s.stats {
 			ctx.Meta.Dist["scan/"+k] += v
 		}
-		ctx.Meta.Rule = "every response (status line, headers, body) of mixed histories incl. a fault round per history, of DCR create/read/update/delete histories with storage and hook failures, of /jwks and discovery for six key sets, and of every grant for pairwise/public clients with JWT token options, scanned for planted secrets; distinct by projected trace of the mixed histories"
+		ctx.Meta.Rule = "every response (status line, headers, body) of mixed histories incl. a fault round per history (worlds drawn with default subject type public / pairwise and clients spelling subject_type out or not), of DCR create/read/update/delete histories with storage and hook failures, of /jwks, discovery, a token request and an encrypted request object for 8 key sets x {keys from the set, WithSignFunc, WithDecryptFunc, both} x {no encryption, JAR, ID token+userinfo, JARM, all} x path prefix, and of every grant for every subject configuration (subject_type public/pairwise/absent x default public/pairwise x sector identifier x pairwise function) with JWT token options, scanned for planted secrets; input_distribution scan/matrix/... is the covered matrix; distinct by projected trace of the mixed histories"
 		ctx.Meta.Extra = map[string]any{"responses_scanned": s.stats["responses"]}
 	}})
+}
+
+// c09ArtifactCases appends case files of type c08case (evaluated by Corr/C08.v check_c08) after the history files
+// and their entries to cases.json, in the same order.
+func c09ArtifactCases(ctx *RunCtx, cases []string, notes []map[string]any) {
+	if len(cases) == 0 {
+		return
+	}
+	var all []map[string]any
+	if b, err := os.ReadFile(filepath.Join(ctx.Out, "cases.json")); err == nil {
+		_ = json.Unmarshal(b, &all)
+	}
+	per := 150
+	for k := 0; k*per < len(cases); k++ {
+		hi := (k + 1) * per
+		if hi > len(cases) {
+			hi = len(cases)
+		}
+		var b strings.Builder
+		b.WriteString(c08Header)
+		var names []string
+		for i, c := range cases[k*per : hi] {
+			fmt.Fprintf(&b, "(*CASE %d*)\nDefinition a_%d : c08case :=\n  %s.\n", k*per+i, k*per+i, c)
+			names = append(names, fmt.Sprintf("a_%d", k*per+i))
+		}
+		b.WriteString("Definition cases : list c08case := [" + strings.Join(names, "; ") + "].\n")
+		b.WriteString("Definition corr := Eval vm_compute in map check_c08 cases.\nPrint corr.\n")
+		name := fmt.Sprintf("cases_art_%03d.v", k)
+		if err := os.WriteFile(filepath.Join(ctx.Out, name), []byte(b.String()), 0o644); err != nil {
+			panic(err)
+		}
+		ctx.Meta.Files = append(ctx.Meta.Files, name)
+	}
+	for _, n := range notes {
+		n["Index"] = len(all)
+		all = append(all, n)
+	}
+	jb, _ := json.Marshal(all)
+	_ = os.WriteFile(filepath.Join(ctx.Out, "cases.json"), jb, 0o644)
+	ctx.Meta.Cases += len(cases)
 }
